@@ -24,7 +24,7 @@ import (
 
 func init() {
 	register(&Check{ID: "C07", Level: "exploration",
-		Rule: "(a) concurrent E2E history on few keys x client groups (ip ranges incl. same label on two ranges, boundary addresses, v6 via DoH header) over several lifetimes, checked for key integrity, group isolation, equality modulo TTL/ID and hit-required; (b) sequential key-component pairs (one component changed => miss, equivalent => hit); (c) MemoryCache histories under eviction with injected delay checked by porcupine against a bag-register model; (d) range tables vs linear scan; " +
+		Rule: "(a) concurrent E2E history on few keys x client groups (ip ranges incl. same label on two ranges, boundary addresses, v6 via DoH header) over several lifetimes, checked for key integrity, group isolation, equality modulo TTL/ID and hit-required; (b) sequential key-component pairs (one component changed => miss, equivalent => hit); (c) MemoryCache histories under eviction with injected delay checked by porcupine against a bag-register model; (d) range tables vs linear scan; (e) in-process overwrite stress and concurrent lookups of live entries (all must hit); pairs include replies beyond 64 KiB uncompressed compared with their first relay; " +
 			"one evaluation = one response / one history / one table; distinct non-trivial = distinct (part, key or variant kind, group, cached?) combinations",
 		Run: runC07})
 }
